@@ -42,7 +42,11 @@ P = {
          'contour walk terminate (C03_contour_stage_terminates) - for every event vector whose result events are closed under the partner '
          'link (derived from the C13 link structure by C03_closed_from_links; that left/right flags of partners differ is checked per run, '
          'not proved: the rounding swap of divide_segment can break it in floating point); contours[*hole_id] is never out of range for '
-         'any input (C03_hole_index_safe). NOT proved: the quadratic event bound, termination of the sweep loop, and that '
+         'any input (C03_hole_index_safe). At the exact instance, for every input with finite coordinates: the sweep loop TERMINATES within '
+         'an explicit event budget (C03_sweep_terminates, C03_sweep_returns: every division point is an edge end point or the common '
+         'point of two non-parallel edges; #ids + 2 #(sub-segment, candidate strictly inside) never increases; every event is popped at '
+         'most once), and for sweeps that run to completion the closure hypothesis is a theorem (C03_exact_complete_run_index_safe). '
+         'NOT proved: the event bound in floating point, and that '
          'contours[lower_contour_id] is in range (geometric; N1/N6 reach it); observed per run (budget hook, catch_unwind, child processes '
          'incl. staggered early-break scenarios).', '§7 C03', 'Coq: termination/container theorems; outcome correspondence release+debug, f64+f32; event-budget hook'),
  'C04': ('proof', 'Partial proof + per-run exact provenance check. Proved: the clamp (returned points lie in both segments\' boxes) for every '
@@ -50,7 +54,12 @@ P = {
          'the exact instance (intersection_exact_all), ring-closing glue; and NO INVENTED VERTICES for every instance, input and '
          'configuration: every coordinate pair of every result ring is an input vertex or a point returned by intersection on segments '
          'between such points (possibly after the one-ulp bump), as an invariant of fill_queue, the sweep loop and the contour assembly '
-         '(C04_output_points_allowed). NOT proved: that every result edge lies on an input edge, non-zero area, orientation. Per run: every result edge lies on an input edge and every vertex is an input vertex or an intersection of two input edges, '
+         '(C04_output_points_allowed). THE FIRST CLAUSE at the exact instance, for every input with finite coordinates and every operation '
+         'whose sweep runs to completion (Union, Xor, early exit disabled): every ring of the result is the close() of a contour all of '
+         'whose consecutive point pairs lie on ONE input edge (C04_result_edges_lie_on_input_edges; through the on-edge invariant of the '
+         'whole sweep incl. the overlap arm, exact partner positions after order_events, and the successor table staying at one vertex; '
+         'the contour part holds for every instance: C04_contour_edges_are_subsegments). NOT proved: the edge appended by close(), runs '
+         'cut short by the early exit, non-zero area, orientation. Per run: every result edge lies on an input edge and every vertex is an input vertex or an intersection of two input edges, '
          'exactly when the float run denotes the exact-arithmetic run of the model, within 1e-9 x magnitude otherwise (rational Python).',
          '§7 C04', 'Coq: intersection kernel theorems; exact-class link by running the model at Q; per-run provenance check'),
  'C05': ('proof', 'The partition law between the five results of one operand pair is decided for every point by the verified scene checker '
@@ -101,7 +110,12 @@ P = {
          'possible_intersection, compute_fields, the std heap and the splay tree with no assumption on the comparators '
          '(C13_subdivided_events_linked); fill_queue creates exactly two events per non-degenerate edge; one division step re-links exactly '
          'the divided pair (every instance, C13_division_relinks_one_pair) and, at the exact instance, the two pieces cover exactly the '
-         'divided segment and meet only in the division point (C13_division_covers_exactly). Per run on the complete event vectors: left-first, non-zero length (all families); no improper '
+         'divided segment and meet only in the division point (C13_division_covers_exactly); at the exact instance for EVERY input with '
+         'finite coordinates every returned pair is left-first, of non-zero length and lies on ONE input edge of its own operand '
+         '(C13_subsegments_lie_on_their_edges, an invariant of the whole sweep incl. the overlap arm) and every point of every non-degenerate '
+         'input edge lies on such a pair (C13_subsegments_cover_their_edges); for every instance no event is '
+         'returned twice and a complete sweep returns every event (C13_no_event_returned_twice, C13_complete_sweep_returns_every_event). '
+         'Planarity (no two sub-segments cross) is NOT proved. Per run on the complete event vectors: left-first, non-zero length (all families); no improper '
          'contact between any two sub-segments and exact coverage of every input edge (exact families, rational Python). Bit-exact '
          'correspondence of the full event vector with the model, all four operations, also at scales 2^-60 .. 2^40.', '§7 C13',
          'Coq: queue-filling theorems; correspondence on event vectors; exact planarity check'),
